@@ -57,7 +57,21 @@ def one(case, pl):
         bv = np.array(r["alpha_vectors"])
         bb = np.array(belief_set)
         new_bv = r["belief_action_alpha_vectors"][np.arange(len(bb)), :, r["belief_action_indices"]]
+        # the vectors the last sweep was computed from: the returned ones if the loop stopped on the
+        # convergence test, else those of a run with one sweep less (deterministic, same prefix)
+        it = int(r["iterations"])
+        if not np.array_equal(bv, new_bv):
+            prev = bv
+        elif it == 0:
+            prev = np.zeros_like(bv)
+        else:
+            prev = np.array(orig(pomdp_, belief_set, value_convergence_epsilon=value_convergence_epsilon,
+                                 horizon=it)["alpha_vectors"])
+        cand = np.einsum("bsa->bas", r["belief_action_alpha_vectors"])
         calls.append({"belief_set": [[fj(x) for x in b] for b in bb],
+                      "prev_alpha_vectors": [[fj(x) for x in v] for v in prev],
+                      "candidates": [[[fj(x) for x in v] for v in c] for c in cand],
+                      "selected": [int(x) for x in r["belief_action_indices"]],
                       "alpha_vectors": [[fj(x) for x in v] for v in bv],
                       "iterations": int(r["iterations"]),
                       "returned_is_last_sweep": bool(np.array_equal(bv, new_bv)),
